@@ -47,3 +47,11 @@ Print Assumptions C07_separation.
 (** the code as found (castling[old & lost]) is refuted on the initial position and e2e4 *)
 Definition C07_legacy_refuted := (zobrist_legacy_refuted, zobrist_legacy_violates).
 Definition C07_nonvacuous := zobrist_incremental_nonvacuous.
+
+(** * Game boards: every history node of a board played from a legal start carries the scratch hash of
+    its position and side (so Board.Hash() = ZobristTable.Hash(Position(), Turn()) after every push);
+    take-back returns to the previous node, whose stored hash is restored unchanged (C08). *)
+From Morlock.Lemmas Require Import GameLemmas7.
+Definition C07_board_hash_scratch := @hash_consistent.
+Check @hash_consistent.
+Print Assumptions hash_consistent.
